@@ -32,12 +32,12 @@ func initMethodSignatureDefinitionNode() {
 			}
 
 			var argReturnType ast.TypeNode
-			if !args[4].IsUndefined() {
+			if !args[4].IsUndefined() && !args[4].IsNil() {
 				argReturnType = args[4].MustReference().(ast.TypeNode)
 			}
 
 			var argThrowType ast.TypeNode
-			if !args[5].IsUndefined() {
+			if !args[5].IsUndefined() && !args[5].IsNil() {
 				argThrowType = args[5].MustReference().(ast.TypeNode)
 			}
 
